@@ -66,6 +66,10 @@ inductive Call where
   | unlink (p : Path)
   | mkdir (p : Path)
   | rmdir (p : Path)
+  /-- no file-system effect: the operation decided NOT to write object `o` because of what it observed at
+  path `ev` (`add_object`: `os.utime` of the final path succeeded).  Recorded so that the checker can demand
+  that the evidence is the object's FINAL path (or a pack index listing it) — never `<o>.lock`. -/
+  | skip (o : Nat) (ev : Path)
   deriving DecidableEq, Repr
 
 def step : Call → FS → FS
@@ -77,6 +81,7 @@ def step : Call → FS → FS
   | .unlink p, s => upd s p none
   | .mkdir p, s => upd s p (some .dir)
   | .rmdir p, s => upd s p none
+  | .skip _ _, s => s
 
 def run : List Call → FS → FS
   | [], s => s
@@ -88,6 +93,7 @@ def touched : Call → List Path
   | .unlink p => [p]
   | .mkdir p => [p]
   | .rmdir p => [p]
+  | .skip _ _ => []
 
 /-! ## Reading a repository out of a file system (as dulwich does) -/
 
@@ -221,6 +227,7 @@ def stepK : Call → Known → Option Known
   | .unlink p, K => some ((p, none) :: K)
   | .mkdir p, K => some ((p, some .dir) :: K)
   | .rmdir p, K => some ((p, none) :: K)
+  | .skip _ _, K => some K
 
 def runK : List Call → Known → Option Known
   | [], K => some K
@@ -362,7 +369,20 @@ def plainOK (spec : Spec) (K0 K' : Known) : Path → Bool
       | none => false)
   | _ => true
 
+/-- A lock file is NEVER evidence of presence: an operation may skip writing object `o` only after observing
+`o`'s final path holding `o`, or a complete pack/index pair whose index lists `o`. -/
+def skipOK (K : Known) : Call → Bool
+  | .skip o (.loose o') => o == o' && (match lk K (.loose o) with
+      | some (some (.obj o'')) => o == o''
+      | _ => false)
+  | .skip o (.idx p) => (match packObjsK K p with
+      | some objs => objs.contains o
+      | none => false)
+  | .skip _ _ => false
+  | _ => true
+
 def safeStep (spec : Spec) (K0 K K' : Known) (c : Call) : Bool :=
+  skipOK K c &&
   (touched c).all (fun t =>
     typedOK K' t && objsOK spec K K' t && refsOK spec K0 K K' t && plainOK spec K0 K' t && pairOK K' t &&
     shallowOK spec K K' t)
@@ -376,6 +396,15 @@ def go (spec : Spec) (K0 : Known) : Known → List Call → Bool
 
 /-- The checker: every step of the program keeps the crash-safety discipline. -/
 def checkProgram (spec : Spec) (p : List Call) : Bool := go spec spec.known spec.known p
+
+/-- Retry after a crash: `qs[k]` is the program the RE-RUN operation issued on the state left by the first `k`
+calls of `p` (recorded from the real code; an operation that stops with an error contributes the calls it made
+before the error, possibly none).  Each must be accepted from the knowledge reached after `k` calls. -/
+def retryOK (spec : Spec) (p : List Call) (qs : List (List Call)) : Bool :=
+  (List.range qs.length).all (fun k =>
+    match runK (p.take k) spec.known with
+    | some Kk => go spec spec.known Kk (qs.getD k [])
+    | none => false)
 
 /-- Index of the first step the checker rejects (diagnostics; `none` = accepted). -/
 def firstUnsafeAux (spec : Spec) (K0 : Known) : Known → List Call → Nat → Option Nat
